@@ -461,7 +461,7 @@ class HTTPChannel(wasyncore.dispatcher):
             else:
                 task.close_on_finish = True
 
-        if task.close_on_finish:
+        if task.close_on_finish or self.will_close:
             with self.requests_lock:
                 self.close_when_flushed = True
 
